@@ -56,6 +56,8 @@ GUARDS = {
     62: ('C08-PERIPH-STRING-ORDER', (12, 13, 14, 17)),
     63: ('C08-REMOVE-PERIPH-KRATES', (11,)),
     64: ('C08-DROPS-BIOAVAILABILITY', (15, 17)),
+    # environment condition of the statement layers (not a conjunct of the Coq guard, see Check.v env_tags)
+    81: ('C08-TRANSIT-ROUNDTRIP-KRATES', (12,)),
 }
 
 ABS = ['ABS_INST', 'ABS_FO', 'ABS_ZO', 'ABS_SEQ']
